@@ -310,6 +310,7 @@ def check_property(prop, tier, spec):
                 'per_job': [{'job': r['job'], 'verdict': r['verdict'], 'paths': r.get('paths', 0),
                              'cpu_s': r.get('cpu_s'), 'z3_queries': r.get('z3_queries')} for r in results],
                 'heaviest_analyses': sorted((h for r in results for h in r.get('heaviest', [])), key=lambda h: -h['cpu_s'])[:10],
+                'per_analysis': sorted((a for r in results for a in r.get('analysis_stats', [])), key=lambda a: a['name']),
                 'inconclusive': [{'job': j, 'why': w} for j, w in inconclusive],
                 'known_findings_seen': [k[0].get('id') for k in known_hits],
             },
